@@ -9,7 +9,7 @@ python3 - "$ID" "$line" "$WT" <<'PY'
 import json,sys
 id,line,wt=sys.argv[1:4]
 p=f'/verif/seeded/{id}/meta.json'; m=json.load(open(p)); m['property']=id.split('-')[0]
-rounds={'/wt10/':'round 7: m5 = two cooperating sites that each look fine alone, m6 = only a multi-step use or an unusual representation shows it (the ten properties round 3 had not covered)','/wt5/':'round 4: m7 = only one operand form / integer type / impl broken, m8 = over-eager hardening or fast path on a narrow interior band','/wt2/':'round 2: rare, inconspicuous triggers requested','/wt4/':'round 3: m5 = two cooperating sites that each look fine alone, m6 = only a multi-step use or an unusual representation shows it'}
+rounds={'/wt11/':'round 8: one free-style change per property, the one the author considers hardest to detect mechanically','/wt10/':'round 7: m5 = two cooperating sites that each look fine alone, m6 = only a multi-step use or an unusual representation shows it (the ten properties round 3 had not covered)','/wt5/':'round 4: m7 = only one operand form / integer type / impl broken, m8 = over-eager hardening or fast path on a narrow interior band','/wt2/':'round 2: rare, inconspicuous triggers requested','/wt4/':'round 3: m5 = two cooperating sites that each look fine alone, m6 = only a multi-step use or an unusual representation shows it'}
 rn=[v for k,v in rounds.items() if k in wt]
 m['origin']='independent sub-agent given only the property text and a scratch worktree'+(' ('+rn[0]+')' if rn else '')
 m['base_commit']='current /repo HEAD at the time (with fix: and hook commits)' if rn else 'pinned commit'
